@@ -163,6 +163,30 @@ def run_case(case):
                 raise
             vios.append(dict(sig="exception:pipeline:%s" % (fr or type(e).__name__), tags=tags, detail="%s: %s" % (type(e).__name__, str(e)[:200]))); break
         evals += 1
+        if budget == "converge" and combo in (combos[0], combos[-1]) and not vios:
+            # the pipeline repeated on the SAME Ocp with the next argument value (what a user does between two calls of F):
+            # the second solve must start where a fresh Ocp with these assignments starts - a completed solve leaves no
+            # trace in the starting point ("arguments not listed keep their current values", not the last solution)
+            try:
+                nxt = [values(a, (w + 1) % 3) for a, w in zip(args, combo)]
+                for a, v_ in zip(args, nxt):
+                    assign(o2, s2, a, v_)
+                o4, s4 = build(meth, M, budget, variant)
+                for a, v_ in zip(args, nxt):
+                    assign(o4, s4, a, v_)
+                o4._transcribed
+                starts = []
+                for o_ in (o2, o4):
+                    op_ = o_._method.opti
+                    starts.append(np.array(op_.debug.value(op_.x, op_.initial()), dtype=float).reshape(-1))
+                if starts[0].shape != starts[1].shape or not NL.close(starts[0], starts[1], 1e-9):
+                    vios.append(dict(sig="stale:second-solve-start", tags=tags, detail="after a completed solve and new assignments of the arguments the next solve starts from %s, a fresh Ocp with the same assignments from %s" % (np.round(starts[0][:6], 5).tolist(), np.round(starts[1][:6], 5).tolist())))
+                    break
+            except Exception as e:
+                fr = core.rockit_frame(sys.exc_info()[2])
+                if fr is None and not isinstance(e, (RuntimeError, AssertionError, ValueError)):
+                    raise
+                vios.append(dict(sig="exception:second-pipeline:%s" % (fr or type(e).__name__), tags=tags, detail="%s: %s" % (type(e).__name__, str(e)[:200]))); break
         names = ["states", "controls", "objective", "variable", "variable_plus", "T"]
         tol = 1e-6 if budget == "converge" else 1e-9
         for nm, g_, w_ in zip(names, got, want):
